@@ -179,11 +179,13 @@ def gen_tree(rng, P, depth=0, path="p", taken=None):
                     glob["shorts"].add(a["short"])
                 if a.get("long"):
                     glob["longs"].add(a["long"].decode())
-        names = {"help"}
+        # with the generated `help` subcommand disabled a user subcommand may be called `help` (seeded change seed2/C09-2)
+        names = set() if "disable_help_subcommand" in c["settings"] else {"help"}
         sub_shorts = set(shorts)       # a short flag-subcommand letter must not collide with an arg of this level
         sub_longs = set(longs)
         for k in range(rng.randrange(1, 4)):
-            n = fresh(SUB_NAMES, names)
+            n = fresh(SUB_NAMES + ["help", "help"], names) if "help" not in names and \
+                "disable_help_subcommand" in c["settings"] else fresh(SUB_NAMES, names)
             if n is None:
                 break
             # non-global names of this level may be reused by the child (level isolation)
